@@ -79,7 +79,15 @@ def c01(ctx):
     ctx.vdrive(["cutsweep", "-outdir", tdir, "-corpus", CORPUS, "-seed", ctx.seed, "-out", rp2, "-shards", core.NCPU,
                 "-maxcuts", 160 if quick else 1500, "-mutations", 1 if quick else 12], timeout=7000)
     crep = ctx.report(rp2)
-    results = ctx.validate_traces("TraceApi.tla", "TraceApi.cfg", sorted(glob.glob(os.path.join(tdir, "*.ndjson"))))
+    afiles = sorted(glob.glob(os.path.join(tdir, "*.ndjson")))
+    results = ctx.validate_traces("TraceApi.tla", "TraceApi.cfg", afiles)
+
+    def lost_call(rec):    # one call logged as not having returned
+        if rec.get("calls", 0) > 1 and rec.get("returned") == rec.get("calls"):
+            rec["returned"] -= 1
+            return True
+        return False
+    selftest01 = core.binding_selftest(ctx, "TraceApi.tla", "TraceApi.cfg", afiles[0], lost_call, "C01", "one call is logged as not returned")
     violations = [v for v in rep["violations"] + crep["violations"] if v["property"] == prop]
     violations += _generic_trace_violations(results, prop, lambda rec: "sample=%s cut=%s panic=%s" % (rec.get("sample"), rec.get("n"), rec.get("panic")))
     # termination / no crash on huge nested inputs examined in full (child processes, 32 MiB stack)
@@ -94,6 +102,7 @@ def c01(ctx):
             v["key"] = "C01|bomb|%s|%s|%s|%s" % (br["shape"], br["closed"], br["entry"], br["limit"])
             violations.append(v)
     cov = dict(
+        binding_selftest=selftest01,
         evaluations=rep["evaluations"] + crep["evaluations"],
         distinct_nontrivial=crep["distinct_nontrivial"],
         rule="model: Bounds.tla transcribes the index arithmetic of CRX (uint32 wrap-around), matchOleClsid, the Matroska vint walk and zipContains with a hostile size field, with an in-bounds obligation on every slice; TLC enumerates %d (length, field) tuples around every boundary (AllInBounds) and each is concretised into a header of exactly that length (exact capacity) and run through the real detector and Detect. traces: %d samples (test table, polyglots, stdlib-written tar / zip / OOXML / APK, CRX, MKV, OLE, JSON, UTF-8, CSV, HTML, XML, PKCS7, seeded byte mutations) cut at %d lengths in total; each header through Detect with limits {0,1,n-1,n,n+1,3072,2^32-1}, DetectReader, DetectFile and every one of the %d registered detectors directly with limits {0,n,3072}; a recovered panic is a call without return (TraceApi.tla). non-trivial = distinct (sample, cut length) headers" % (r["distinct"], crep["extra"]["samples"], crep["extra"]["headers"], crep["extra"]["registered_detectors"]),
@@ -122,11 +131,20 @@ def c17(ctx):
     rp = os.path.join(ctx.scratch, "mono.json")
     ctx.vdrive(["monotrace", "-outdir", tdir, "-corpus", CORPUS, "-seed", ctx.seed, "-out", rp, "-mutate", 0 if quick else 6], timeout=7000)
     rep = ctx.report(rp)
-    results = ctx.validate_traces("TraceMono.tla", "TraceMono.cfg", sorted(glob.glob(os.path.join(tdir, "*.ndjson"))))
+    mfiles = sorted(glob.glob(os.path.join(tdir, "*.ndjson")))
+    results = ctx.validate_traces("TraceMono.tla", "TraceMono.cfg", mfiles)
+
+    def lose(rec):         # a series that stays binary, logged as if the last (largest) limit had lost the identification
+        if rec.get("ev") == "mono" and len(rec["nt"]) > 4 and rec["nt"][-1] == 1 and rec["nt"][-2] == 1:
+            rec["nt"][-1] = 0
+            return True
+        return False
+    selftest17 = core.binding_selftest(ctx, "TraceMono.tla", "TraceMono.cfg", mfiles[0], lose, "C17", "a binary identification is logged as lost at the largest limit")
     violations = _generic_trace_violations(results, prop, lambda rec: "sample=%s first non-text at limit %s, later results %s" % (
         rec.get("sample"), next((rec["ls"][i] for i, v in enumerate(rec["nt"]) if v), None),
         [rec["ls"][i] for i, v in enumerate(rec["nt"]) if not v and any(rec["nt"][:i])][:8]))
     cov = dict(
+        binding_selftest=selftest17,
         evaluations=rep["evaluations"],
         distinct_nontrivial=rep["extra"]["series_with_a_binary_identification"],
         rule="model: LimitMono.tla, every assignment of %d root detectors to the two shapes found in the code (monotone threshold; hand-over to a later sibling, as ttf to mdb / accdb) with thresholds within the bound and every pair L < L' (0 = unlimited as the largest): a binary first acceptor at L implies one at L'; the counter-model appears as soon as a bounded detector without hand-over is admitted (sanity run). observations: every corpus and generated sample extended with a text-like, a random, a NUL, a line-break and a `-WB_MC1.0` tail, short samples followed by the head of other samples, samples through a pipe, and 200 KB files carrying a small archive behind an unknown header (limits up to 1 MiB), detected at every limit 1..700, then geometrically to 16 KiB, then unlimited; TraceMono.tla requires that once a non-text format is reported it stays non-text. non-trivial = series in which some limit gives a binary identification" % (3),
@@ -148,7 +166,15 @@ def c18(ctx):
     ctx.vdrive(["tartrace", "-in", r["out"], "-outdir", tdir, "-seed", ctx.seed, "-out", rp, "-shards", core.NCPU, "-corrupt", 3 if quick else 40], timeout=7000)
     os.remove(r["out"])
     rep = ctx.report(rp)
-    results = ctx.validate_traces("TraceTar.tla", "TraceTar.cfg", sorted(glob.glob(os.path.join(tdir, "*.ndjson"))), timeout=7000)
+    tfiles = sorted(glob.glob(os.path.join(tdir, "*.ndjson")))
+    results = ctx.validate_traces("TraceTar.tla", "TraceTar.cfg", tfiles, timeout=7000)
+
+    def untar(rec):        # a conforming archive reported as tar, logged as unknown
+        if rec.get("ev") == "tar" and rec["result"] == "application/x-tar":
+            rec["result"] = rec["rootchild"] = "application/octet-stream"
+            return True
+        return False
+    selftest18 = core.binding_selftest(ctx, "TraceTar.tla", "TraceTar.cfg", tfiles[0], untar, "C18", "a conforming archive is logged as application/octet-stream")
     violations = _generic_trace_violations(results, prop, lambda rec: "header %s %s" % (rec.get("id"), rec.get("shape") or ("pos=%s vals=%s" % (rec.get("pos"), (rec.get("tar_vals") or rec.get("tar_detect_vals"))[:5]))))
     drift = sum(1 for r2 in results for t in r2["tuples"] if t[0] == "DRIFT")
     nonconf = sum(1 for r2 in results for t in r2["tuples"] if t[0] == "INFO")
@@ -166,6 +192,7 @@ def c18(ctx):
     except Exception as e:  # noqa
         proof["note"] = "tlapm unavailable or timed out: %s" % e
     cov = dict(
+        binding_selftest=selftest18,
         evaluations=rep["evaluations"],
         distinct_nontrivial=rep["extra"]["single_byte_corruptions"],
         rule="shapes: format {USTAR, PAX, GNU} x type {regular, directory, symlink, hard link, character device, fifo, links whose TARGET ends in /gpkg-1} x name length {1,60,99,100,101,155,200,256} x numeric fields {small, maximal octal, beyond octal (base-256 / PAX records)} x user names {empty, ASCII, non-ASCII} x name prefix {plain, MZ, PK34, %%PDF-, GIF89a, ./, non-ASCII, and the signatures of root formats consulted AFTER tar: BZh, xar!, FITS card, BM, ID3, fLaC, RIFF..WAVE, ftyp} x limit {0, 512, 1000, 2000, 3072, 10000}: %d classes enumerated by TLC, %d written by archive/tar (the rest are refused by the writer itself); TraceTar.tla recomputes both checksums from the logged first block (Tar.tla), checks that the writer recorded the unsigned sum, that the detector and Detect report tar (unless one of the 22 root formats consulted before tar, HigherThanTar, claims the bytes). corruption: all 512 x 255 single-byte changes of %d first blocks through the Tar detector and Detect; outside bytes 148..155 none may still be tar. The arithmetic lemma behind it is checked by TLC over all byte pairs and proved unbounded by TLAPS. non-trivial = single-byte corruptions executed" % (rep["extra"]["shapes"], rep["extra"]["headers_written"], rep["extra"]["headers_corrupted_exhaustively"]),
